@@ -66,8 +66,17 @@ def _g_chunk(recs):
         lines = rec["lines"]
         src = Source(text)
         # clause 1: get_location = Loc
-        for off in range(len(text) + 1):
+        # one Source object serves all lookups, in ascending, descending and interleaved order, and is also asked about the
+        # offsets inside a CR LF pair (not judged themselves): whatever a Source remembers between lookups must not
+        # change what it answers later
+        n = len(text) + 1
+        order = list(range(n)) + list(range(n - 1, -1, -1)) + [o for pair in zip(range(n), range(n - 1, -1, -1)) for o in pair]
+        for off in order:
             if inside[off]:
+                try:
+                    src.get_location(off)
+                except Exception as e:  # noqa: BLE001
+                    viol.append(("get_location-raises", syms, {"off": off, "exc": type(e).__name__, "inside": True}))
                 continue
             n_pairs += 1
             try:
